@@ -65,14 +65,14 @@ def run_shards(ctx, binp, drv, nshards, workers, tier, extra_first=(), tag=""):
                 f = os.path.join(shim.workdir, "cases.txt")
                 vf.write_cases(f, cases)
                 ok, bad = vf.lockstep(shim, binp, drv, f, timeout=3000)
-                by_id = {h.split()[0]: (h, ops) for h, ops in cases}
+                by_id = {h.split()[0]: (h, ops, i) for i, (h, ops) in enumerate(cases)}
                 d = {hash((h.split()[1], tuple(ops))) for h, ops in cases if len(ops) >= 3}
                 with lock:
                     res["ok"] += ok
                     res["distinct"] |= d
                     for cid, msg in bad:
-                        h, ops = by_id[cid]
-                        res["bad"].append((h, ops, msg))
+                        h, ops, pos = by_id[cid]
+                        res["bad"].append((h, ops, msg, (k, pos)))
                     if k == 0:
                         res["samples"] = [{"case": h, "ops": ops[:24]} for h, ops in
                                           (cases[:1] + cases[len(cases) // 2:len(cases) // 2 + 1] + cases[-1:])]
@@ -91,9 +91,43 @@ def run_shards(ctx, binp, drv, nshards, workers, tier, extra_first=(), tag=""):
     return res
 
 
-def handle_bad(ctx, binp, drv, bad):
+def shard_cases(ctx, binp, tier, nshards, k, extra_first=()):
+    rc, out = vf.sh([binp, "gen", tier, str(ctx.seed), str(k), str(nshards)])
+    cases = vf.parse_cases(out)
+    return (list(extra_first) + cases) if k == 0 else cases
+
+
+def isolate_crash(ctx, binp, drv, cases, pos, window=400):
+    """A crash (memory corruption) kills the process later than the call that
+    caused it, and the output of the cases finished in between is lost with
+    the process: the flagged case is merely the first one of that process.  Run
+    the cases from there on one per process and return the first that is bad on
+    its own."""
+    f = os.path.join(ctx.workdir, "isolate.txt")
+    for h, ops in cases[pos:pos + window]:
+        vf.write_cases(f, [(h, ops)])
+        try:
+            ok, bad = vf.lockstep(ctx, binp, drv, f, tag="-isolate", timeout=120)
+        except Exception:  # noqa: BLE001
+            continue
+        if bad:
+            return h, ops, bad[0][1]
+    return None
+
+
+def handle_bad(ctx, binp, drv, bad, gen_args):
+    """bad: [(header, ops, msg, (shard, pos))]; gen_args = (tier, nshards, extra_first).
+    One report per kind; verdicts about what a call returned come before crashes."""
+    tier, nshards, extra_first = gen_args
+    semantic = [b for b in bad if "CRASH" not in b[2]]
+    crashes = [b for b in bad if "CRASH" in b[2]]
+    if not semantic and crashes:
+        h, ops, msg, (k, pos) = crashes[0]
+        found = isolate_crash(ctx, binp, drv, shard_cases(ctx, binp, tier, nshards, k, extra_first), pos)
+        if found:
+            semantic = [(found[0], found[1], found[2], (k, pos))]
     seen_kinds = set()
-    for header, ops, msg in bad:
+    for header, ops, msg, _ in semantic + crashes[:1]:
         kind = "prop" if "kind=prop" in msg else "corr"
         if kind in seen_kinds:
             continue
@@ -127,7 +161,7 @@ def run(ctx):
     ok = res["ok"]
     ctx.samples = res["samples"]
     if bad:
-        handle_bad(ctx, binp, drv, bad)
+        handle_bad(ctx, binp, drv, bad, (ctx.tier, nshards, corpus))
     if thorough:
         # the pointer-based manager: same wrappers, other crate
         pbin = vf.cargo_build(["h_names"], features=["cfg-pointer"], no_default=True, target_sub="pointer")["h_names"]
@@ -136,7 +170,7 @@ def run(ctx):
         distinct |= {hash(("pointer", x)) for x in res2["distinct"]}
         ctx.add_stat("cases_pointer_manager", res2["ok"] + len(res2["bad"]))
         if res2["bad"]:
-            handle_bad(ctx, pbin, drv, res2["bad"])
+            handle_bad(ctx, pbin, drv, res2["bad"], ("quick", 4, ()))
             bad += res2["bad"]
     ctx.stats["distinct_nontrivial"] = len(distinct)
     reorder = os.environ.get("VERIF_C16_REORDER", "0") == "1"
